@@ -52,6 +52,10 @@ def mats(rng):
     L = np.diag(np.array(S - np.diag(np.diag(S))).sum(1) * -1) + (S - np.diag(np.diag(S)))   # pure graph Laplacian: singular
     out.append(('laplacian-singular-5', L, 'singular'))
     out.append(('all-zero-4', np.zeros((4, 4)), 'zero'))
+    # well-conditioned and nonsingular, but unsolvable without pivoting: zero / tiny diagonal entries
+    # (kind 'pivot': direct solvers only -- relaxation and Krylov methods are not defined / not convergent there)
+    out.append(('needs-pivoting-3', np.array([[1e-14, 1.0, 0.0], [1.0, 1.0, 1.0], [0.0, 1.0, 3.0]]), 'pivot'))
+    out.append(('zero-diagonal-4', np.array([[0.0, 2.0, 0.0, 0.0], [1.0, 0.0, 0.5, 0.0], [0.0, 1.0, 0.0, 3.0], [0.5, 0.0, 1.0, 0.0]]), 'pivot'))
     return out
 
 
@@ -80,6 +84,8 @@ def run(ctx):
                 continue
             if sname in ('gmres', 'bicgstab', 'cg', 'gauss_seidel', 'jacobi', 'sor', 'block_gauss_seidel', 'richardson') and kind in ('singular', 'singular-zero'):
                 continue
+            if kind == 'pivot' and sname not in ('pinv', 'lu', 'splu', 'callable'):
+                continue
             if sname == 'sor':
                 sv = ('sor', {'omega': 1.2})
             case = dict(matrix=mname, solver=repr(sv), dense=Ad.real.tolist() if not cplx else None)
@@ -94,15 +100,21 @@ def run(ctx):
                 ctx.fail('coarse_grid_solver(%s)/raises' % sname, repr(e), case)
                 continue
             seq = []
-            for k in range(4):
+            for k in range(6):
                 b = np.array([rng.uniform(-1, 1) for _ in range(n)])
-                if cplx:
-                    b = b + 1j * np.array([rng.uniform(-1, 1) for _ in range(n)])
+                if cplx and k != 4:
+                    b = b + 1j * np.array([rng.uniform(-1, 1) for _ in range(n)])     # (k = 4: real b for a complex matrix)
+                if k == 5:
+                    b = np.array([rng.randrange(-3, 4) for _ in range(n)], dtype=np.int64)   # integer right-hand side
                 if k % 2 == 1:
                     b = b.reshape(-1, 1)
                 seq.append(b)
+            is_direct = sname in ('pinv', 'lu', 'cholesky', 'splu', 'callable') or sname is None
             for k, b in enumerate(seq):
-                cs = dict(case, call=k, shape=list(b.shape))
+                if not is_direct and (b.dtype.kind == 'i' or (cplx and not np.iscomplexobj(b))):
+                    continue          # (the relaxation / Krylov routines insist on one common floating dtype: their contract;
+                    #                    MultilevelSolver.solve upcasts b before any coarse solve)
+                cs = dict(case, call=k, shape=list(b.shape), b_dtype=str(b.dtype))
                 try:
                     with warnings.catch_warnings():
                         warnings.simplefilter('ignore')
@@ -130,7 +142,7 @@ def run(ctx):
                         ctx.fail('coarse/%s/zero-correction' % sname, 'nonzero correction %s' % xv[:4], cs)
                     continue
                 direct = sname in ('pinv', 'lu', 'cholesky', 'splu', 'callable')
-                if direct and kind in ('spd', 'nonsym'):
+                if direct and kind in ('spd', 'nonsym', 'pivot'):
                     ref = np.linalg.solve(Ad, bv)
                     if _nn(np.linalg.norm(xv - ref)) > 1e-9 * np.linalg.cond(Ad) * (1 + np.linalg.norm(ref)):
                         ctx.fail('coarse/%s/wrong-solution' % sname, '|x - A^-1 b| = %.3g' % np.linalg.norm(xv - ref), cs)
